@@ -646,7 +646,7 @@ class Subspace(IdealPoint):
 
         if model == Model.POINCARE:
             klein_basis = self.ideal_basis_coords(model=Model.KLEIN)
-            klein_midpoint = klein_basis.sum(axis=-2) / klein_basis.shape[-2]
+            klein_midpoint = _equidistant_point(klein_basis)
             poincare_midpoint = kleinian_to_poincare(klein_midpoint)
             poincare_extreme = utils.sphere_inversion(poincare_midpoint)
 
@@ -655,8 +655,7 @@ class Subspace(IdealPoint):
 
         elif model == Model.HALFSPACE:
             halfspace_basis = self.ideal_basis_coords(model=Model.HALFSPACE)
-            halfspace_midpoint = (halfspace_basis.sum(axis=-2) /
-                                  halfspace_basis.shape[-2])
+            halfspace_midpoint = _equidistant_point(halfspace_basis)
 
             #just use the first element of the basis
             center = halfspace_midpoint
@@ -2082,6 +2081,24 @@ def halfspace_to_poincare(points):
     poincare_coords[..., 0] = (x2 + y * y - 1) / denom
 
     return poincare_coords
+
+def _equidistant_point(points):
+    """Find the point in the affine span of an array of k points (with
+    shape (..., k, n)) which is equidistant from all of them.
+
+    For k = 2 this is the midpoint. For k > 2 it is the circumcenter
+    of the points (not their centroid).
+
+    """
+    base = points[..., :1, :]
+    diffs = points[..., 1:, :] - base
+
+    gram = diffs @ diffs.swapaxes(-1, -2)
+    half_sq_norms = np.expand_dims(utils.normsq(diffs), axis=-1) / 2
+
+    coeffs = utils.invert(gram) @ half_sq_norms
+
+    return np.squeeze(base + coeffs.swapaxes(-1, -2) @ diffs, axis=-2)
 
 def timelike_to(v, force_oriented=False):
     """Find an isometry taking the origin of the Poincare/Klein models to
